@@ -205,7 +205,7 @@ class Run:
         if REPO != "/repo":
             hdir = os.path.join(self.dir, "harness")
             if not os.path.exists(hdir):
-                shutil.copytree(HARNESS, hdir, ignore=shutil.ignore_patterns("drive", "drive_race"))
+                shutil.copytree(HARNESS, hdir, ignore=lambda d, names: [n for n in names if d == HARNESS and n in ("drive", "drive_race")])
                 gm = open(os.path.join(hdir, "go.mod")).read().replace("=> /repo", "=> " + REPO)
                 open(os.path.join(hdir, "go.mod"), "w").write(gm)
         shutil.copy(os.path.join(REPO, "go.sum"), os.path.join(hdir, "go.sum"))
